@@ -35,28 +35,46 @@ package implements
 // NOT a decision of C05 (agreement with go/types' identity and method sets is not expressible here, see /verif/DESIGN.md):
 // the loaders are proved total and read-only (C10), and the matcher is pinned to its own model of signatures, so a change
 // of what it compares is noticed.
+// The matcher's model of a type (the DEFINITION of the model, by cases on the go/types representation): a defined type is
+// (name, package path), a basic type its name, a pointer the model of its element with the pointer flag set, anything
+// else its go/types string. Both sides (interface methods, type methods) use the same model.
+//@ ghost func mName(t types.Type) string
+//@ ghost func mPkg(t types.Type) string
+//@ ghost func mPtr(t types.Type) bool
+//@ axiom model_pointer: forall t types.Type {mName(t)} {mPkg(t)} {mPtr(t)} :: typeis(t, *types.Pointer) ==> mName(t) == mName(cast(t, *types.Pointer).Elem()) && mPkg(t) == mPkg(cast(t, *types.Pointer).Elem()) && mPtr(t)
+//@ axiom model_named: forall t types.Type {mName(t)} {mPkg(t)} {mPtr(t)} :: typeis(t, *types.Named) ==> mName(t) == cast(t, *types.Named).Obj().Name() && mPkg(t) == (cast(t, *types.Named).Obj().Pkg() != nil ? cast(t, *types.Named).Obj().Pkg().Path() : "") && !mPtr(t)
+//@ axiom model_basic: forall t types.Type {mName(t)} {mPkg(t)} {mPtr(t)} :: typeis(t, *types.Basic) ==> mName(t) == cast(t, *types.Basic).Name() && mPkg(t) == "" && !mPtr(t)
+//@ axiom model_other: forall t types.Type {mName(t)} {mPkg(t)} {mPtr(t)} :: t != nil && !typeis(t, *types.Pointer) && !typeis(t, *types.Named) && !typeis(t, *types.Basic) ==> mName(t) == t.String() && mPkg(t) == "" && !mPtr(t)
 //@ func convertTypesToInterfaceType
-//@   props C10
+//@   props C05 C10
 //@   requires t != nil
+//@   ensures result.TypeName == mName(t) && result.TypePackage == mPkg(t) && result.IsPointer == mPtr(t) && !result.IsVariadic
 //@   assigns nothing
 //@ func convertTypesToMethodType
-//@   props C10
+//@   props C05 C10
 //@   requires t != nil
+//@   ensures result.TypeName == mName(t) && result.TypePackage == mPkg(t) && result.IsPointer == mPtr(t) && !result.IsVariadic
 //@   assigns nothing
+// the type that is modelled for parameter k: the element type for the variadic last parameter (a slice), else its type
+//@ macro func elemT(tuple *types.Tuple, k int, isVariadic bool) types.Type = (isVariadic && k == tuple.Len() - 1 && typeis(tuple.At(k).Type(), *types.Slice)) ? cast(tuple.At(k).Type(), *types.Slice).Elem() : tuple.At(k).Type()
 //@ func extractTypesFromTuple
-//@   props C10
+//@   props C05 C10
 //@   nilable tuple
 //@   assigns nothing
 //@   ensures tuple == nil ==> len(result) == 0
 //@   ensures tuple != nil ==> len(result) == tuple.Len()
-//@   loop 1 invariant len(result) == tuple.Len() && 0 <= $v
+//@   ensures tuple != nil ==> (forall k int :: 0 <= k && k < tuple.Len() ==> result[k].TypeName == mName(elemT(tuple, k, isVariadic)) && result[k].TypePackage == mPkg(elemT(tuple, k, isVariadic)) && result[k].IsPointer == mPtr(elemT(tuple, k, isVariadic)) && result[k].IsVariadic == (isVariadic && k == tuple.Len() - 1))
+//@   loop 1 invariant len(result) == tuple.Len() && 0 <= $v && $v <= tuple.Len()
+//@   loop 1 invariant forall k int :: 0 <= k && k < $v ==> result[k].TypeName == mName(elemT(tuple, k, isVariadic)) && result[k].TypePackage == mPkg(elemT(tuple, k, isVariadic)) && result[k].IsPointer == mPtr(elemT(tuple, k, isVariadic)) && result[k].IsVariadic == (isVariadic && k == tuple.Len() - 1)
 //@ func extractMethodTypesFromTuple
-//@   props C10
+//@   props C05 C10
 //@   nilable tuple
 //@   assigns nothing
 //@   ensures tuple == nil ==> len(result) == 0
 //@   ensures tuple != nil ==> len(result) == tuple.Len()
-//@   loop 1 invariant len(result) == tuple.Len() && 0 <= $v
+//@   ensures tuple != nil ==> (forall k int :: 0 <= k && k < tuple.Len() ==> result[k].TypeName == mName(elemT(tuple, k, isVariadic)) && result[k].TypePackage == mPkg(elemT(tuple, k, isVariadic)) && result[k].IsPointer == mPtr(elemT(tuple, k, isVariadic)) && result[k].IsVariadic == (isVariadic && k == tuple.Len() - 1))
+//@   loop 1 invariant len(result) == tuple.Len() && 0 <= $v && $v <= tuple.Len()
+//@   loop 1 invariant forall k int :: 0 <= k && k < $v ==> result[k].TypeName == mName(elemT(tuple, k, isVariadic)) && result[k].TypePackage == mPkg(elemT(tuple, k, isVariadic)) && result[k].IsPointer == mPtr(elemT(tuple, k, isVariadic)) && result[k].IsVariadic == (isVariadic && k == tuple.Len() - 1)
 //@ func extractMethodsFromInterface
 //@   props C05 C10
 //@   assigns nothing
